@@ -107,6 +107,8 @@ NeverOverLimit(e, c) ==
 HdrOK(e, c, v) == c.proto = "ws" \/ SubMD(v.hdr, e.cl.hdr)
 TrlOK(e, c, v) == CarriesTrailers(c.proto) => SubMD(v.trl, e.cl.trl)
 HdrResOK(e, v) == e.h.hdrerrs = v.hdrRes
+\* no protocol-reserved key shows the client a value the handler put under it
+NotForged(e) == e.cl.forged = <<>>
 ContentTypeOK(e, c) ==
   \/ c.proto = "ws"
   \* an HTTP response without a body needs no content type; if there is one it is the protocol's
@@ -172,7 +174,7 @@ Judge(e) ==
    \cup (IF ~HdrOK(e, c, v) THEN {"MetadataOutHeader"} ELSE {})
    \cup (IF ~TrlOK(e, c, v) THEN {"MetadataOutTrailer"} ELSE {})
    \cup (IF ~HdrResOK(e, v) THEN {"HeaderPhase"} ELSE {})
-   \cup (IF ~ContentTypeOK(e, c) THEN {"ReservedUnforgeable"} ELSE {})
+   \cup (IF ~ContentTypeOK(e, c) \/ ~NotForged(e) THEN {"ReservedUnforgeable"} ELSE {})
    \cup (IF e.h.invoked = 1 /\ ~MetadataInOK(e) THEN {"MetadataIn"} ELSE {})
    \cup (IF ~ICallsOK(e, c, v) THEN {"InterceptOnce"} ELSE {})
    \cup (IF ~StatsOK(e, c, v) \/ ~NoStats(e) THEN {"StatsWellFormed"} ELSE {})
